@@ -3,6 +3,7 @@ From Coq Require Import List NArith ZArith Bool Arith String.
 Import ListNotations.
 Require Import Scan Parse Construct StandaloneLemmas.
 Require Emit EmitGrows EmitLemmas EmitPrefix.
+Require ParseL ParserIsolation.
 
 (* KIND C12_doc_indicator_only_at_column_0 : U *)
 (* in EVERY scanner state: '---' / '...' is recognised as a document boundary only at column 0 *)
@@ -32,6 +33,14 @@ Proof. vm_compute. repeat split; reflexivity. Qed.
 Theorem C12_emit_prefix_monotone : forall es1 es2 s, exists d, fst (Emit.emit_all (es1 ++ es2)%list s) = (fst (Emit.emit_all es1 s) ++ d)%list.
 Proof. exact EmitPrefix.l_emit_prefix_monotone. Qed.
 Eval vm_compute in "ASSUME:C12_emit_prefix_monotone"%string. Print Assumptions C12_emit_prefix_monotone.
+
+(* KIND C12_directives_do_not_leak : U *)
+(* documents of a stream are parsed independently of the directives of their predecessors: see C11_directives_do_not_leak (all token lists) *)
+Theorem C12_directives_do_not_leak : forall fuel acc ts p stk mks h v h' v', p = ParseL.PDocStart \/ p = ParseL.PImplicitDocStart ->
+  ParseL.parse_loop fuel acc {| ParseL.toks := ts; ParseL.pstate_ := Some p; ParseL.pstates := stk; ParseL.pmarks := mks; ParseL.handles := h; ParseL.version_ := v |} =
+  ParseL.parse_loop fuel acc {| ParseL.toks := ts; ParseL.pstate_ := Some p; ParseL.pstates := stk; ParseL.pmarks := mks; ParseL.handles := h'; ParseL.version_ := v' |}.
+Proof. exact ParserIsolation.directives_do_not_leak. Qed.
+Eval vm_compute in "ASSUME:C12_directives_do_not_leak"%string. Print Assumptions C12_directives_do_not_leak.
 
 (* PARTIAL: doc_markers / no_marker_inside / doc_text_prefix_stable on the emitter model and parser_doc_count are not proved; decided by the exact-text
    emitter correspondence, the parse correspondence and the direct dump_all/serialize_all/emit -> load_all/compose_all/parse run (n in = n out, each
